@@ -125,13 +125,20 @@ Proof.
     apply dp_set_mem_In in M. apply filter_In in M. destruct M as [_ M]. congruence.
 Qed.
 
-(* the lists  map fst (filter P (combine (seq 0 n) d))  are index lists *)
+(* the lists  map fst (filter P (combine (seq 0 n) d))  are index lists; P is a predicate on
+   the pair (index, state) *)
+Lemma idx_filter_pair_eq {T} (P : nat * dstate T -> bool) (d : dfa T) :
+  map fst (filter P (combine (seq 0 (length d)) d))
+  = filter (fun i => P (i, dget d i)) (seq 0 (length d)).
+Proof.
+  rewrite dp_combine_seq0, dp_filter_map, map_map. cbn [fst]. apply map_id.
+Qed.
+
+(* special case: predicate on the state only *)
 Lemma idx_filter_eq {T} (g : dstate T -> bool) (d : dfa T) :
   map fst (filter (fun p => g (snd p)) (combine (seq 0 (length d)) d))
   = filter (fun i => g (dget d i)) (seq 0 (length d)).
-Proof.
-  rewrite dp_combine_seq0, dp_filter_map, map_map. cbn [fst snd]. apply map_id.
-Qed.
+Proof. exact (idx_filter_pair_eq (fun p => g (snd p)) d). Qed.
 
 (* s - (number of listed indices below s) = number of unlisted indices below s *)
 Lemma sub_below p n s :
@@ -145,23 +152,43 @@ Qed.
 (* Codegen: inlined_states / renumber / arms / arm_lookup              *)
 (* ------------------------------------------------------------------ *)
 
-Definition one_pred (d : dfa trans) (i : nat) : bool := length (d_preds (dget d i)) =? 1.
+(* state i is inlined: it has exactly one predecessor, and exactly one arm of that predecessor
+   leads to it *)
+Definition inl_at (d : dfa trans) (i : nat) : bool := inlined_pred d (i, dget d i).
 
 Lemma inlined_states_eq (d : dfa trans) :
-  inlined_states d = filter (one_pred d) (seq 0 (length d)).
-Proof. exact (idx_filter_eq (fun st => length (d_preds st) =? 1) d). Qed.
+  inlined_states d = filter (inl_at d) (seq 0 (length d)).
+Proof. exact (idx_filter_pair_eq (inlined_pred d) d). Qed.
 
 Lemma renumber_cnt (d : dfa trans) s :
   s <= length d ->
-  renumber (inlined_states d) s = cnt (fun i => negb (one_pred d i)) s.
+  renumber (inlined_states d) s = cnt (fun i => negb (inl_at d i)) s.
 Proof.
   intros H. unfold renumber. rewrite inlined_states_eq. apply sub_below. exact H.
 Qed.
 
-Lemma not_inlined_one_pred (d : dfa trans) s :
-  s < length d -> set_mem s (inlined_states d) = false -> one_pred d s = false.
+Lemma set_mem_inlined (d : dfa trans) s :
+  s < length d -> set_mem s (inlined_states d) = inl_at d s.
+Proof. intros H. rewrite inlined_states_eq. apply set_mem_idx. exact H. Qed.
+
+Lemma not_inlined_inl_at (d : dfa trans) s :
+  s < length d -> set_mem s (inlined_states d) = false -> inl_at d s = false.
+Proof. intros H M. rewrite set_mem_inlined in M by exact H. exact M. Qed.
+
+(* a state without exactly one predecessor is not inlined; in particular states without
+   predecessors (the entry states of the rule sets) *)
+Lemma inl_at_one_pred (d : dfa trans) s :
+  inl_at d s = true -> length (d_preds (dget d s)) = 1.
 Proof.
-  intros H M. rewrite inlined_states_eq, set_mem_idx in M by exact H. exact M.
+  unfold inl_at, inlined_pred. cbn [fst snd].
+  destruct (d_preds (dget d s)) as [|q [|q' l]]; intros H; try discriminate. reflexivity.
+Qed.
+
+Lemma no_preds_not_inlined (d : dfa trans) s :
+  s < length d -> d_preds (dget d s) = [] -> set_mem s (inlined_states d) = false.
+Proof.
+  intros H E. rewrite set_mem_inlined by exact H.
+  unfold inl_at, inlined_pred. cbn [fst snd]. rewrite E. reflexivity.
 Qed.
 
 Lemma renumber_strict_mono (d : dfa trans) s t :
@@ -169,7 +196,7 @@ Lemma renumber_strict_mono (d : dfa trans) s t :
   renumber (inlined_states d) s < renumber (inlined_states d) t.
 Proof.
   intros Hst Ht M. rewrite !renumber_cnt by lia.
-  apply cnt_lt; [exact Hst|]. rewrite (not_inlined_one_pred d s) by (lia || exact M). reflexivity.
+  apply cnt_lt; [exact Hst|]. rewrite (not_inlined_inl_at d s) by (lia || exact M). reflexivity.
 Qed.
 
 Theorem renumber_injective : forall (d : dfa trans) s t,
@@ -183,7 +210,7 @@ Proof.
   - pose proof (renumber_strict_mono d t s L (Nat.lt_le_incl _ _ Hs) Mt). lia.
 Qed.
 
-Lemma inlined_length (d : dfa trans) : length (inlined_states d) = cnt (one_pred d) (length d).
+Lemma inlined_length (d : dfa trans) : length (inlined_states d) = cnt (inl_at d) (length d).
 Proof. rewrite inlined_states_eq. reflexivity. Qed.
 
 (* the wildcard index is renumber(length d) - 1 *)
@@ -191,11 +218,11 @@ Lemma last_index_eq (d : dfa trans) :
   length d - length (inlined_states d) - 1 = renumber (inlined_states d) (length d) - 1.
 Proof.
   rewrite renumber_cnt by lia. rewrite inlined_length.
-  pose proof (cnt_split (one_pred d) (length d)). lia.
+  pose proof (cnt_split (inl_at d) (length d)). lia.
 Qed.
 
 Definition arm_of (d : dfa trans) (i : nat) : list (option nat * nat) :=
-  if one_pred d i && negb (d_init (dget d i)) then []
+  if inl_at d i then []
   else let k := renumber (inlined_states d) i in
        [(if k =? length d - length (inlined_states d) - 1 then None else Some k, i)].
 
@@ -214,33 +241,27 @@ Proof.
   apply Nat.eqb_neq in Hk. rewrite Hk. apply IH. intros p y Hy. apply (H p y). right; exact Hy.
 Qed.
 
-(* the states that get no arm are exactly the inlined ones: holds when no initial state has
-   exactly one predecessor *)
-Definition init_not_inlined {T} (d : dfa T) : Prop :=
-  forall s, s < length d -> d_init (dget d s) = true -> length (d_preds (dget d s)) <> 1.
-
-Theorem dispatch_correct : forall (d : dfa trans) s,
-  init_not_inlined d -> s < length d -> set_mem s (inlined_states d) = false ->
+(* the states that get no arm are exactly the inlined ones *)
+Theorem dispatch_correct' : forall (d : dfa trans) s,
+  s < length d -> set_mem s (inlined_states d) = false ->
   arm_lookup (arms d) (renumber (inlined_states d) s) = Some s.
 Proof.
-  intros d s Hinit Hs Ms.
-  pose proof (not_inlined_one_pred d s Hs Ms) as Ps.
+  intros d s Hs Ms.
+  pose proof (not_inlined_inl_at d s Hs Ms) as Ps.
   pose proof (renumber_strict_mono d s (length d) Hs (le_n _) Ms) as Hlast.
   rewrite arms_eq, (dp_seq_split (length d) s Hs), flat_map_app.
   rewrite arm_lookup_skip.
-  - cbn [flat_map]. unfold arm_of at 1. rewrite Ps. cbn [andb app].
+  - cbn [flat_map]. unfold arm_of at 1. rewrite Ps. cbn [app].
     destruct (renumber (inlined_states d) s =? length d - length (inlined_states d) - 1);
       cbn [arm_lookup]; [reflexivity|]. rewrite Nat.eqb_refl. reflexivity.
   - intros pat x Hin. apply in_flat_map in Hin. destruct Hin as [i [Hi Hin]].
     apply in_seq in Hi. unfold arm_of in Hin.
-    destruct (one_pred d i) eqn:Pi.
-    + (* one predecessor: not initial by hypothesis, so no arm *)
-      destruct (d_init (dget d i)) eqn:Ii.
-      * exfalso. apply (Hinit i); [lia|exact Ii|]. apply Nat.eqb_eq. exact Pi.
-      * cbn in Hin. contradiction.
-    + cbn [andb] in Hin. destruct Hin as [Hin|[]].
+    destruct (inl_at d i) eqn:Pi.
+    + (* inlined: no arm *)
+      cbn in Hin. contradiction.
+    + destruct Hin as [Hin|[]].
       assert (Mi : set_mem i (inlined_states d) = false).
-      { rewrite inlined_states_eq, set_mem_idx by lia. exact Pi. }
+      { rewrite set_mem_inlined by lia. exact Pi. }
       assert (Hlt : renumber (inlined_states d) i < renumber (inlined_states d) s).
       { apply renumber_strict_mono; [lia|lia|exact Mi]. }
       rewrite last_index_eq in Hin.
@@ -248,6 +269,17 @@ Proof.
       * apply Nat.eqb_eq in E. lia.
       * inversion Hin; subst. eexists; split; [reflexivity|lia].
 Qed.
+
+(* no initial state has exactly one predecessor. Since inlining was restricted (arms skip
+   exactly the inlined states) this premise of dispatch_correct is no longer needed; it is
+   kept so that the statement is unchanged *)
+Definition init_not_inlined {T} (d : dfa T) : Prop :=
+  forall s, s < length d -> d_init (dget d s) = true -> length (d_preds (dget d s)) <> 1.
+
+Theorem dispatch_correct : forall (d : dfa trans) s,
+  init_not_inlined d -> s < length d -> set_mem s (inlined_states d) = false ->
+  arm_lookup (arms d) (renumber (inlined_states d) s) = Some s.
+Proof. intros d s _. apply dispatch_correct'. Qed.
 
 (* ------------------------------------------------------------------ *)
 (* Dfa: simplify                                                       *)
@@ -339,6 +371,7 @@ Proof.
 Qed.
 
 Print Assumptions dispatch_correct.
+Print Assumptions dispatch_correct'.
 Print Assumptions renumber_injective.
 Print Assumptions simplify_index.
 Print Assumptions simplify_entries.
